@@ -442,9 +442,12 @@ func ExecReader(data any, selector string) (any, error) {
 		}
 		cache[selector] = allSelectors
 	}
+	// the entry is read while the lock is still held: another goroutine may be adding a
+	// different selector to the map at any time
+	parsed := cache[selector]
 	mut.Unlock()
 	result := data
-	for _, item := range cache[selector] {
+	for _, item := range parsed {
 		rs, err := ReaderExecutor(result, item)
 		if err != nil {
 			return nil, err
